@@ -452,6 +452,13 @@ def determinism(argv) -> int:
         print(f"{'ok' if ok else 'DIVERGED':9s} {prop} seed=0 runs={len(digests(o4))} same digests at 1 worker and 16 workers")
         bad += not ok
         sys.stdout.flush()
+    if not only or only == "C14":
+        cmd = ["checks/c14.py", "--runs", "50", "--digests", "--no-evidence"]  # with the whole (batched) sweep
+        _, a, _ = run([PY, *cmd], env={"VERIF_SEED": "0", "VERIF_WORKERS": "16"})
+        _, b, _ = run([PY, *cmd], env={"VERIF_SEED": "0", "VERIF_WORKERS": "7", "VERIF_HASHSEED": "99"})
+        ok = digests(a) and digests(a) == digests(b)
+        print(f"{'ok' if ok else 'DIVERGED':9s} C14 sweep+random runs={len(digests(a))} same event-log digests at 16 workers and at 7 workers under harness hash seed 99")
+        bad += not ok
     print(f"determinism: {'all equal' if not bad else str(bad) + ' divergences'}")
     return 0 if bad == 0 else 1
 
